@@ -5,6 +5,7 @@ import (
 	"encoding/json"
 	"flag"
 	"fmt"
+	"net/http"
 	"os"
 	"reflect"
 	"strings"
@@ -13,6 +14,7 @@ import (
 
 	z "github.com/Oudwins/zog"
 	"github.com/Oudwins/zog/parsers/zjson"
+	"github.com/Oudwins/zog/zhttp"
 )
 
 // ---------------------------------------------------------------------------
@@ -27,6 +29,7 @@ type heapObs struct {
 	SchemaChanged bool   `json:"schemachanged"`
 	SecondSame    bool   `json:"secondsame"`
 	InputSame     bool   `json:"inputsame"`
+	ValueChanged  bool   `json:"valuechanged"` // Validate changed the validated value otherwise than through Default / Catch / PostTransform
 	Note          string `json:"note"`
 }
 
@@ -286,6 +289,59 @@ func cmdHeap(args []string) {
 			ok := i1 == 0 && i2 == 0 && n1 == "from"+first && n2 != n1 && n2 != ""
 			emit(heapObs{Site: "front-end-switch-" + first + "-first", Mode: "parse", SecondSame: ok, InputSame: true, Note: fmt.Sprint(n1, i1, "/", n2, i2)})
 		}
+	}
+	// 3f. Validate changes the validated value only through Default, Catch and PostTransform: optional nil pointers stay nil,
+	// whatever they point to (also as struct fields and behind another pointer)
+	{
+		type holder struct {
+			S *[]int
+			P *int
+			T *struct{ A int }
+		}
+		h := holder{}
+		z.Struct(z.Schema{"s": z.Ptr(z.Slice(z.Int())), "p": z.Ptr(z.Int()), "t": z.Ptr(z.Struct(z.Schema{"a": z.Int()}))}).Validate(&h)
+		var ps *[]int
+		z.Ptr(z.Slice(z.Int())).Validate(&ps)
+		var pps **[]string
+		z.Ptr(z.Ptr(z.Slice(z.String()))).Validate(&pps)
+		var es []int
+		z.Slice(z.Int()).Validate(&es)
+		same := h.S == nil && h.P == nil && h.T == nil && ps == nil && pps == nil && es == nil
+		emit(heapObs{Site: "validate-nil-pointers-stay-nil", Mode: "validate", SecondSame: true, ValueChanged: !same, InputSame: true, Note: fmt.Sprint(h.S != nil, h.P != nil, h.T != nil, ps != nil, pps != nil, es != nil)})
+	}
+	// 3d. a destination that is empty but has spare capacity (a reused buffer) gets the default by deep copy as well
+	for _, mode := range []string{"validate"} {
+		def := [][]string{{"a", "b"}, {"c"}}
+		s := z.Slice(z.Slice(z.String().PostTransform(func(p any, c z.Ctx) error { *(p.(*string)) += "!"; return nil }))).Default(def)
+		run := func() [][]string {
+			buf := make([][]string, 0, 4)
+			s.Validate(&buf)
+			return buf
+		}
+		a, b := run(), run()
+		emit(heapObs{Site: "nested-slice-default-reused-buffer-" + mode, Mode: mode, SchemaChanged: !reflect.DeepEqual(def, [][]string{{"a", "b"}, {"c"}}), SecondSame: reflect.DeepEqual(a, b), InputSame: true, Note: fmt.Sprint(def, a, b)})
+	}
+	// 3e. the request handed to the form front end is input data too: its Form / PostForm values stay as they were
+	{
+		mk := func() *http.Request {
+			req, _ := http.NewRequest("POST", "http://x.test/", strings.NewReader("tags%5B%5D=&tags%5B%5D=a&tags%5B%5D=b&t=&t=x&name=+n+"))
+			req.Header.Set("Content-Type", "application/x-www-form-urlencoded")
+			return req
+		}
+		req := mk()
+		type fd struct {
+			Tags []string `form:"tags[]"`
+			T    []string `form:"t"`
+			Name string   `form:"name"`
+		}
+		s := z.Struct(z.Schema{"tags": z.Slice(z.String()), "t": z.Slice(z.String()), "name": z.String()})
+		var d1, d2 fd
+		s.Parse(zhttp.Request(req), &d1)
+		after1 := fmt.Sprint(req.Form)
+		s.Parse(zhttp.Request(req), &d2)
+		ref := mk()
+		ref.ParseForm()
+		emit(heapObs{Site: "input-form-values", Mode: "parse", SecondSame: reflect.DeepEqual(d1, d2), InputSame: after1 == fmt.Sprint(ref.Form) && fmt.Sprint(req.Form) == fmt.Sprint(ref.Form), Note: fmt.Sprint(req.Form, d1, d2)})
 	}
 	// 4. Parse never modifies (or shares memory with) its input
 	{
